@@ -12,6 +12,7 @@ import (
 	"net/http"
 	"net/netip"
 	"sort"
+	"strings"
 	"sync"
 	"time"
 
@@ -409,6 +410,10 @@ func (c *Clients) runHTTP(cc *plan.ClientConn, cr *ConnRecord, srv plan.ServerSp
 			if method == "" {
 				method = "GET"
 			}
+			if strings.HasPrefix(o.Op.HTTPVariant, "raw_") {
+				c.rawHTTP(ctx, cc, srv, o, src, network, target)
+				return
+			}
 			switch o.Op.HTTPVariant {
 			case "put":
 				method = "PUT"
@@ -456,4 +461,90 @@ func (c *Clients) runHTTP(cc *plan.ClientConn, cr *ConnRecord, srv plan.ServerSp
 	time.Sleep(time.Duration(cc.LingerUs) * time.Microsecond)
 	cr.ClosedAt = c.S.Now()
 	tr.CloseIdleConnections()
+}
+
+// rawHTTP sends a hand-written HTTP/1.1 request (things net/http's client
+// would never put on the wire) on a connection of its own and records the
+// status line of whatever comes back.
+func (c *Clients) rawHTTP(ctx context.Context, cc *plan.ClientConn, srv plan.ServerSpec, o *OpRecord, src netip.Addr, network, target string) {
+	raw, err := c.W.PeerDial(ctx, fmt.Sprintf("C%d.raw%d", cc.Idx, o.Op.Idx), src, network, target)
+	if err != nil {
+		c.mu.Lock()
+		o.Err = err.Error()
+		c.mu.Unlock()
+		return
+	}
+	defer raw.Close()
+	var conn net.Conn = raw
+	if srv.Proto == "https" {
+		tc := tls.Client(raw, c.clientTLS(cc, ProxyServerName, "http/1.1"))
+		raw.SetDeadline(time.Now().Add(5 * time.Second))
+		if err := tc.Handshake(); err != nil {
+			c.mu.Lock()
+			o.Err = "tls: " + err.Error()
+			c.mu.Unlock()
+			return
+		}
+		raw.SetDeadline(time.Time{})
+		conn = tc
+	}
+	q := o.Query
+	head := "POST /dns-query HTTP/1.1\r\nHost: " + ProxyServerName + "\r\nContent-Type: application/dns-message\r\nAccept: application/dns-message\r\n"
+	var req []byte
+	switch o.Op.HTTPVariant {
+	case "raw_no_length": // a body-less POST without Content-Length
+		req = []byte(head + "\r\n")
+	case "raw_no_length_close":
+		req = []byte(head + "Connection: close\r\n\r\n")
+	case "raw_chunked": // the query in two chunks
+		h := len(q) / 2
+		req = []byte(head + "Transfer-Encoding: chunked\r\n\r\n")
+		req = append(req, fmt.Sprintf("%x\r\n", h)...)
+		req = append(append(req, q[:h]...), "\r\n"...)
+		req = append(req, fmt.Sprintf("%x\r\n", len(q)-h)...)
+		req = append(append(req, q[h:]...), "\r\n0\r\n\r\n"...)
+	case "raw_chunk_garbage":
+		req = []byte(head + "Transfer-Encoding: chunked\r\n\r\nzz\r\n" + string(q) + "\r\n")
+	case "raw_short_body": // Content-Length promises more than follows, then the client waits
+		req = append([]byte(head+fmt.Sprintf("Content-Length: %d\r\n\r\n", len(q)+40)), q...)
+	case "raw_huge_length":
+		req = append([]byte(head+"Content-Length: 4294967296\r\n\r\n"), q...)
+	case "raw_neg_length":
+		req = append([]byte(head+"Content-Length: -1\r\n\r\n"), q...)
+	case "raw_http10":
+		req = append([]byte("POST /dns-query HTTP/1.0\r\nContent-Type: application/dns-message\r\n"+fmt.Sprintf("Content-Length: %d\r\n\r\n", len(q))), q...)
+	case "raw_get_no_param":
+		req = []byte("GET /dns-query HTTP/1.1\r\nHost: " + ProxyServerName + "\r\nAccept: application/dns-message\r\n\r\n")
+	case "raw_get_empty_param":
+		req = []byte("GET /dns-query?dns= HTTP/1.1\r\nHost: " + ProxyServerName + "\r\nAccept: application/dns-message\r\n\r\n")
+	case "raw_garbage_line":
+		req = []byte("\x00\x01GARBAGE\r\n\r\n")
+	case "raw_long_header":
+		req = []byte(head + "X-Pad: " + strings.Repeat("a", 20000) + "\r\n" + fmt.Sprintf("Content-Length: %d\r\n\r\n", len(q)))
+		req = append(req, q...)
+	default:
+		req = append([]byte(head+fmt.Sprintf("Content-Length: %d\r\n\r\n", len(q))), q...)
+	}
+	c.S.Logf("cl_send", "C%d op=%d http %s n=%d", cc.Idx, o.Op.Idx, o.Op.HTTPVariant, len(req))
+	conn.SetDeadline(time.Now().Add(4 * time.Second))
+	conn.Write(req)
+	buf := make([]byte, 0, 4096)
+	tmp := make([]byte, 2048)
+	for len(buf) < 1<<16 {
+		n, err := conn.Read(tmp)
+		buf = append(buf, tmp[:n]...)
+		if err != nil || bytes.Contains(buf, []byte("\r\n\r\n")) {
+			break
+		}
+	}
+	status := 0
+	if len(buf) >= 12 && bytes.HasPrefix(buf, []byte("HTTP/1.")) {
+		fmt.Sscanf(string(buf[9:12]), "%d", &status)
+	}
+	if status != 0 {
+		c.mu.Lock()
+		o.Resps = append(o.Resps, Resp{At: c.S.Now(), B: nil, Status: status})
+		c.mu.Unlock()
+	}
+	c.S.Logf("cl_resp", "C%d op=%d status=%d raw", cc.Idx, o.Op.Idx, status)
 }
